@@ -42,7 +42,7 @@ KINDS = ["intact", "intact", "bytes", "bytes", "bytes", "arith", "arith",
 
 def budget(tier):
     if tier == "quick":
-        return dict(runs=12000, wall=75, chunk=150)
+        return dict(runs=10000, wall=75, chunk=150)
     return dict(runs=400000, wall=840, chunk=600)
 
 
@@ -88,7 +88,8 @@ def generate(run_seed, tier):
             it["s"] = r.randrange(1, n)
         items.append(it)
     return dict(curve=mc.name, d=libx.key_scalar(r, n),
-                d2=libx.key_scalar(r, n), items=items)
+                d2=libx.key_scalar(r, n), items=items,
+                legacy_generator=toy and r.random() < 0.12)
 
 
 def _model_decode(fmt, data, n, L):
@@ -125,7 +126,8 @@ def execute(prog):
     mc = mcurves.by_name(prog["curve"])
     n = mc.n
     L = mc.nlen
-    curve, toy = libx.run_curve(mc)
+    curve, toy = libx.run_curve(
+        mc, legacy_generator=bool(prog.get("legacy_generator")))
     d, d2 = prog["d"], prog["d2"]
     Q = ec.mul(mc, d, mc.G)
     Q2 = ec.mul(mc, d2, mc.G)
@@ -299,7 +301,8 @@ def execute(prog):
             # ---- the library's verdict
             arg = data if fmt != "strings" else \
                 (tuple(data) if rnd.random() < 0.5 else list(data))
-            if it.get("precompute", "no") != "no":
+            if it.get("precompute", "no") != "no" and \
+                    not prog.get("legacy_generator"):
                 # the verifier's table path (both points precomputed)
                 vkey.precompute(lazy=(it["precompute"] == "lazy"))
             try:
